@@ -42,7 +42,10 @@ impl NamingHelper {
     /// assert_eq!("r#type".to_string(), NmHlp::escape_rust_keyword("type".to_string()));
     /// ```
     pub fn escape_rust_keyword(name: String) -> String {
-        if Self::is_rust_keyword(&name) {
+        if matches!(name.as_str(), "self" | "Self" | "super" | "crate") {
+            // These keywords can't be used as raw identifiers
+            format!("{name}_")
+        } else if Self::is_rust_keyword(&name) {
             format!("r#{name}")
         } else {
             name
@@ -168,6 +171,9 @@ impl NamingHelper {
                 });
         if result.starts_with(|c: char| c.is_ascii_digit()) {
             format!("_{result}")
+        } else if result == "Self" {
+            // The only keyword that is written in upper camel case
+            "Self_".to_string()
         } else {
             result
         }
